@@ -106,6 +106,8 @@ fn finish_thread() {
 }
 
 fn with_schedule<R>(order: Vec<usize>, nthreads: usize, f: impl FnOnce() -> R) -> (R, Vec<usize>, bool) {
+    // grants for threads that do not exist (a shrunk case with fewer calls) are skipped
+    let order: Vec<usize> = order.into_iter().filter(|t| *t < nthreads).collect();
     *SCHED.lock().unwrap() = Some(Sched { order, pos: 0, done: vec![false; nthreads], trace: vec![], stuck: false, running: None });
     crux_core::verif::install(Some(Arc::new(point)));
     let r = f();
